@@ -1048,7 +1048,7 @@ def eval_dyad_take(a, b, backend):
         # Handle empty array/string case
         r = b
     elif aa > b_size:
-        b = np_backend.tile(b, aa // len(b))
+        b = np_backend.tile(b, (aa // len(b),))
         b = np_backend.concatenate((b, b[:aa-backend.array_size(b)]) if a > 0 else (b[-(aa-backend.array_size(b)):], b))
         r = b[a:] if a < 0 else b[:a]
     else:
